@@ -46,6 +46,7 @@ type Options struct {
 	FullEnv     bool              `json:"fullEnv"`
 	AccountID   string            `json:"accountId"`
 	Port0       bool              `json:"port0"`
+	ExitLagMs   int               `json:"exitLagMs"`
 	OpWaitMs    int               `json:"opWaitMs"` // bound for a single driver step (default 20 s)
 }
 
@@ -127,6 +128,7 @@ func New(opt Options) (*Stack, error) {
 	}
 	sup.ExecLatency = time.Duration(opt.ExecLatency) * time.Millisecond
 	sup.FullEnv = opt.FullEnv
+	sup.ExitLag = time.Duration(opt.ExitLagMs) * time.Millisecond
 
 	port := 0
 	if !opt.Port0 {
@@ -440,6 +442,36 @@ func (s *Stack) RtNext(p *Proc, who string) CallResult {
 		"ctx", r.Header.Get("Lambda-Runtime-Client-Context"), "trace", r.Header.Get("Lambda-Runtime-Trace-Id"),
 		"nowMs", time.Now().UnixMilli())
 	return r
+}
+
+// RtNextAbort polls for the next event over a raw connection, reads at most `limit` bytes of the
+// answer and closes the connection (a runtime whose connection breaks while a large event is delivered).
+func (s *Stack) RtNextAbort(p *Proc, limit int) {
+	a := actorOf(p, "rt")
+	cid := s.Rec.Emit(a, "NextCall", "who", a, "gen", gen(p), "abortAfter", limit)
+	api := s.Addr
+	if p != nil && p.Env["AWS_LAMBDA_RUNTIME_API"] != "" {
+		api = p.Env["AWS_LAMBDA_RUNTIME_API"]
+	}
+	got := 0
+	c, err := net.DialTimeout("tcp", api, 2*time.Second)
+	if err == nil {
+		fmt.Fprintf(c, "GET /2018-06-01/runtime/invocation/next HTTP/1.1\r\nHost: %s\r\n\r\n", api)
+		buf := make([]byte, 4096)
+		_ = c.SetReadDeadline(time.Now().Add(10 * time.Second))
+		for got < limit {
+			n, err := c.Read(buf)
+			got += n
+			if err != nil {
+				break
+			}
+		}
+		if tc, ok := c.(*net.TCPConn); ok {
+			_ = tc.SetLinger(0) // reset: the server's pending write fails at once
+		}
+		c.Close()
+	}
+	s.Rec.Emit(a, "NextRet", "cid", cid, "who", a, "gen", gen(p), "status", 0, "net", "aborted", "size", got)
 }
 
 func (s *Stack) classifyIf(ok bool, b []byte) string {
